@@ -78,7 +78,7 @@ def run(ctx):
         elif pr.returncode != 0:
             vlib.report_failure(ctx, {"op": "c18crash", "report": out[:3000]}, {"failed": ["process-died:rc=%d" % pr.returncode], "report": out[:1500]})
         if os.path.exists(of):
-            rows_by_proc.append(vlib.read_ndjson(of))
+            rows_by_proc.append(vlib.read_ndjson(of, tolerant=True))
     nrows = 0
     for rows in rows_by_proc:
         nrows += len(rows)
